@@ -139,6 +139,25 @@ def check_execution(part, ex, cache):
                 if not path or path[-1] not in S.component(conn, path[0]) or not all(S.in_grid((R, C), c) for c in path):
                     part.fail(f"C12:random_path:{gen}", f"{tag}: generate_random_path() (np.random.seed({s})) returned {path[:8]}: endpoints not connected", {**inp, "path_seed": s}, path)
                     break
+            # the same with endpoint options that name cells outside the connected part: a refusal ("no valid start or end positions found") is
+            # fine, but endpoints that are drawn must be mutually reachable
+            allc = [tuple(c) for c in S.cells((R, C))]
+            for oi, opts in enumerate(({"allowed_end": allc}, {"allowed_start": allc, "deadend_end": True}, {"allowed_start": allc[::-1], "allowed_end": allc, "endpoints_not_equal": True})):
+                s = RS.stable_int("path-opts", gen, kk, conn.tobytes(), oi) % (2**32)
+                np.random.seed(s)
+                try:
+                    path = _cells(maze.generate_random_path(**opts))
+                except ValueError as e:
+                    if "no valid start or end positions" in str(e) or "low >= high" in str(e):
+                        continue
+                    part.fail(f"C12:random_path_options:{gen}", f"{tag}: generate_random_path({sorted(opts)}) (np.random.seed({s})) raised {type(e).__name__}: {str(e.args[0] if e.args else e)[:120]}", {**inp, "path_seed": s, "path_opts": oi}, repr(e)[:300])
+                    break
+                except Exception as e:  # noqa: BLE001 - raised by the code under check
+                    part.fail(f"C12:random_path_options:{gen}", f"{tag}: generate_random_path({sorted(opts)}) (np.random.seed({s})) raised {type(e).__name__}: {str(e.args[0] if e.args else e)[:120]}", {**inp, "path_seed": s, "path_opts": oi}, repr(e)[:300])
+                    break
+                if not path or path[-1] not in S.component(conn, path[0]) or not all(S.in_grid((R, C), c) for c in path):
+                    part.fail(f"C12:random_path_options:{gen}", f"{tag}: generate_random_path({sorted(opts)}) (np.random.seed({s})) returned {path[:8]}: endpoints not connected", {**inp, "path_seed": s, "path_opts": oi}, path)
+                    break
         finally:
             np.random.set_state(state)
 
@@ -176,7 +195,7 @@ def _run_part(name, jobs, rule):
 def run(tier, seed):
     warnings.simplefilter("ignore")
     ex_jobs, sd_jobs, ex_rule, sd_rule = RS.plan(CHECKER, tier, seed)
-    extra = f"; per distinct (generator, kwargs, output, metadata): all metadata clauses + get_connected_component + {N_PATHS} seeded generate_random_path() draws (grids with both sides > 1, component of >= 2 cells)"
+    extra = f"; per distinct (generator, kwargs, output, metadata): all metadata clauses + get_connected_component + {N_PATHS} seeded generate_random_path() draws + 3 draws with endpoint options naming every cell of the grid (grids with both sides > 1, component of >= 2 cells)"
     return [_run_part("C12.all-executions", ex_jobs, ex_rule + extra), _run_part("C12.seeded", sd_jobs, sd_rule + extra)]
 
 
